@@ -36,7 +36,15 @@ RULE += (" Round 7: (a) statement trees over the extended C03 syntax (tuple targ
          "whose context did it (for the whole inheritance chain when the set uses extends), every loader request must be "
          "reported by some template of the set or None must be.")
 
-SET_CONFIGS = ["sync", "async", "sandbox", "unoptimized", "autoescape", "overlay", "bccache", "async_sandbox", "autoescape_select"]
+SET_CONFIGS = ["sync", "async", "sandbox", "unoptimized", "autoescape", "overlay", "bccache", "async_sandbox", "autoescape_select",
+               "i18n_noinstall"]
+
+
+class Lookups(list):
+    """lookups made by template code; .by_callables: made by context-passing callables on their own account"""
+    def __init__(self):
+        super().__init__()
+        self.by_callables = []
 SET_EXTS = ["jinja2.ext.i18n", "jinja2.ext.do", "jinja2.ext.loopcontrols", "jinja2.ext.debug"]
 SNIPPETS = [
     "{% trans %}T {{ a }} and {{ b }}{% endtrans %}",
@@ -52,6 +60,7 @@ SNIPPETS = [
     "{% for q in [1, 2] if loop %}{{ q }}{% endfor %}{{ loop }}",
     "{{ varargs }}{{ kwargs }}{{ caller }}",
     "{% macro sp() %}{{ loop }}{{ super }}{% endmacro %}{{ sp() }}",
+    "{{ _('hello') }}{{ gettext('x') if gettext is defined else '' }}",
     "{% include dyn ignore missing %}",
     "{% include [dyn, 'nope.html'] ignore missing %}",
     "{% include ('inc1.html' if a else dyn) ignore missing %}",
@@ -115,6 +124,9 @@ def wrap(rng, src):
     return src
 
 
+_CTX_METHODS = ("resolve", "get", "__getitem__", "__contains__", "resolve_or_missing")
+
+
 def set_env(jinja2, cfg, templates, lookups, requests):
     from jinja2.runtime import Context
     from jinja2.sandbox import SandboxedEnvironment
@@ -124,11 +136,31 @@ def set_env(jinja2, cfg, templates, lookups, requests):
             requests.append(template)
             return super().get_source(environment, template)
 
+    import sys
+
     class RecContext(Context):
         def resolve_or_missing(self, key):
-            lookups.append((self.name, key))
+            # who asks?  Generated template code calls this method directly (its namespace has no __name__).
+            # A context-passing callable that the TEMPLATE invoked (a @pass_context global / filter such as the i18n
+            # alias `_`) asks through Context.resolve / get / __getitem__: its lookups are its own — the statement is
+            # about names the template looks up, find_undeclared_variables analyses the template's AST.  Everything
+            # else (the engine's own machinery: get_exported, module construction, ...) is judged like template code.
+            f = sys._getframe(1)
+            while f is not None and f.f_code.co_name in _CTX_METHODS and f.f_globals.get("__name__") == "jinja2.runtime":
+                f = f.f_back
+            own = False
+            if f is not None and "__name__" in f.f_globals:
+                up = f.f_back
+                while up is not None and up.f_globals.get("__name__") == "jinja2.runtime" and up.f_code.co_name in ("call", "_invoke"):
+                    up = up.f_back
+                own = up is not None and "__name__" not in up.f_globals
+            if own:
+                by_callables.append((self.name, key))
+            else:
+                lookups.append((self.name, key))
             return super().resolve_or_missing(key)
 
+    by_callables = lookups.by_callables if hasattr(lookups, "by_callables") else []
     kw = dict(loader=RecLoader(templates), extensions=SET_EXTS)
     if cfg in ("async", "async_sandbox"):
         kw["enable_async"] = True
@@ -156,7 +188,8 @@ def set_env(jinja2, cfg, templates, lookups, requests):
     env.context_class = RecContext
     if cfg == "overlay":
         env = env.overlay(cache_size=7, optimized=False)
-    env.install_null_translations(newstyle=cfg in ("async", "autoescape"))
+    if cfg != "i18n_noinstall":      # there `_` resolves gettext from the render arguments at run time
+        env.install_null_translations(newstyle=cfg in ("async", "autoescape"))
     return env
 
 
@@ -202,7 +235,7 @@ def part_sets(ctx, jinja2):
             if rng.random() < 0.3 and "{% block" not in ts[name] and "{% extends" not in ts[name]:
                 ts[name] = wrap(rng, ts[name])
         cfg = SET_CONFIGS[i % len(SET_CONFIGS)]
-        lookups, requests = [], []
+        lookups, requests = Lookups(), []
         env = set_env(jinja2, cfg, ts, lookups, requests)
         globals_ = set(env.globals)
         und, ref, bad = {}, {}, False
@@ -225,7 +258,10 @@ def part_sets(ctx, jinja2):
                 # (never a template that includes `dyn` itself: unbounded self-inclusion only burns time)
                 d["dyn"] = rng.choice([t for t in ts if "dyn" not in ts[t]] + ["nope.html", 3]
                                       + ([["inc1.html"]] if "dyn" not in ts.get("inc1.html", "") else []))
-            del lookups[:], requests[:]
+            del lookups[:], requests[:], lookups.by_callables[:]
+            if cfg == "i18n_noinstall" and rng.random() < 0.7:
+                d["gettext"] = str.upper
+                d["ngettext"] = lambda a, b, n: a if n == 1 else b      # noqa
             try:
                 env.get_template(main).render(**d)
                 status = "ok"
@@ -244,6 +280,8 @@ def part_sets(ctx, jinja2):
                      sample={"templates": ts, "config": cfg, "lookups": [list(x) for x in seen][:12], "requests": asked}
                      if len(ts) > 2 and i % 50 == 3 and k == 0 else None)
             ctx.count("sets_" + cfg + "_" + ("ok" if status == "ok" else "error"))
+            if lookups.by_callables:
+                ctx.count("sets_lookups_made_by_context_callables", len(lookups.by_callables))
             extra = [(t, n) for t, n in seen if n not in globals_ and n not in (all_und if uses_extends or t not in und else und[t])]
             if extra:
                 ctx.reject(case, f"context lookups {extra} (template, name) are not reported by find_undeclared_variables "
@@ -601,6 +639,9 @@ def replay(ctx, data):
         env = set_env(jinja2, case["config"], ts, lookups, requests)
         d = {}
         for k, v in case["data"].items():
+            if k in ("gettext", "ngettext"):
+                d[k] = str.upper if k == "gettext" else (lambda a, b, n: a if n == 1 else b)
+                continue
             try:
                 d[k] = pyast.literal_eval(v)
             except Exception:  # noqa
